@@ -115,6 +115,24 @@ def gen_cases(seed, tier, leads):
         if i % 10 == 0:
             cases.append((UN[(i // 10) % 4], a, 0, 1))
             cases.append(('equal', a, b, 0))
+    # collision sequences: consecutive calls of one operation whose operands agree under the keys a remembering
+    # implementation might use (low half, high half, residue class, xor / sum of halves): nothing may survive a call
+    M = 2**64
+    def colliders(w):
+        lo, hi = w & 0xFFFFFFFF, w >> 32
+        out = [lo, hi << 32, hi, (lo << 32) | hi, (w + vlib.P) % M if w + vlib.P < M else (w - vlib.P) % M if w >= vlib.P else w ^ (1 << 63),
+               w ^ (1 << 32), (w + (1 << 32)) % M, ((hi ^ lo) << 32), (hi + lo) % M, w ^ 1, w]
+        return out
+    bases = [0x100000005, vlib.P, 2**32, M - 1, 0xFFFFFFFF00000005, 0x8000000080000000] + [rng.word() | (1 << 40) for _ in range(6 if tier == 'quick' else 60)]
+    for w in bases:
+        fixed = rng.word()
+        for op in BIN + ['mulScalar']:
+            for c in colliders(w):
+                cases.append((op, fixed, w, 0)); cases.append((op, fixed, c, 0))      # second operand / scalar collides with the previous one
+                cases.append((op, w, fixed, 0)); cases.append((op, c, fixed, 0))      # first operand collides
+        for op in UN:
+            for c in colliders(w):
+                cases.append((op, w, 0, 0)); cases.append((op, c, 0, 0))
     return cases
 
 
